@@ -176,6 +176,10 @@ func runC05(c *mon.Ctx) {
 		for i, a := range rec.Assertions {
 			a.ID = sim.S(fmt.Sprintf("_a%d", i))
 			a.Confs[0].NotOnOrAfter = sc[i].text
+			if r.IntN(5) == 0 {
+				// a lower bound on the confirmation data (which the warning is not about), before or after the clock
+				a.Confs[0].NotBefore = c05Bound(r, now, randDelta(r, r.IntN(2) == 0), "ok").text
+			}
 			if i == 0 {
 				a.Cond.NotBefore, a.Cond.NotOnOrAfter = nb.text, nooa.text
 			} else if r.IntN(3) == 0 {
